@@ -1133,6 +1133,9 @@ def rule_impl_unsized(ctx, rep):
 
 
 def run(ctx, rep):
+    from . import c12 as _c12
+
+    _c12.union_tag_premise(ctx, rep)  # ArcUnion's eq / Debug go through `borrow()`: they see the held value only if the variant test and the tag strip are exact
     rule_deleg(ctx, rep)
     rule_impl_unsized(ctx, rep)
     rule_whole(ctx, rep)
@@ -1156,6 +1159,7 @@ def main(argv):
             "the set read by partial_cmp/cmp/lt../hash at the same instantiation (derived impls expanded at the impl's own self type), header before "
             "slice. By parametricity a one-call delegation returns the payload's answer. Not decided: the payload's own coherence; concrete results."
             ' Added later: the same-allocation licence is stated for every handle (the constant "equal" answer only under the equality of the two handles\' whole stored pointers, `ptr_eq` itself being exactly that); R-DELEG-ALL also covers the header-slice payload structs.'
+            ' Round nineteen: R-TAG of C12 as a premise (ArcUnion compares and prints what `borrow()` lends; seed: `is_first` by `is_aligned::<A>()`).'
             ' Round thirteen/fourteen: R-IMPL-UNSIZED (comparison/format impls of types admitting unsized payloads do not demand `Sized`: impl predicates); R-LEX sees key comparisons passed as function items and `Equal` as the rest of a Less/Greater switch.'
         ),
         rule_text="instances = trait methods on handle/payload types (R-DELEG), the Arc::eq/ne shortcut (R-LICENCE), (type, ordering-or-hash method) pairs vs eq (R-FOOT)",
